@@ -6,7 +6,7 @@ TECHNIQUE = "static analysis over type-checked MIR: guard-span coverage of the w
 LEVEL_TEXT = """Static, all-paths decision of the ordering and ownership clauses the property rests on: (R1) the writer lock's guard span covers every call of RollingFileAppender::append and is released on every exit; (R2) on the post-processing branch encode -> flush -> read len -> Policy::process, on the pre-processing branch read len -> Policy::process -> get_writer -> encode -> flush, each exactly once on every Ok path, the flushed writer being the one encoded into and coming from the latest get_writer; (R3) LogFile::roll unconditionally assigns None to the writer slot and only roll()/get_writer write that slot; (R4) CompoundPolicy::process runs trigger, then only on Ok(true) roll() followed by the roller on log.path(), errors propagated; (R5) get_writer opens the appender's own path iff the slot is empty and stores Some before returning, and the open appends unless it truncates (append(x) or truncate(x) holds for every valuation of the flags, evaluated jointly); (R7) the LogWriter's buffered file is touched only by the opener and by its io::Write impl, and there only as the direct receiver of write-family/flush calls (never unwrapped with get_mut/get_ref/into_inner, so no byte can overtake buffered ones or escape the counter); (R4 also) roll() and the roller are guarded by nothing but the trigger's answer; (R6d) move_file replaces an archive whole: rename first, Ok and NotFound end there, otherwise fs::copy (which truncates the destination) and the source is removed only after a successful copy (C07.R5 re-evaluated); (R6) the fixed-window roller shifts pattern(i) to pattern(i+1) oldest-first over exactly base..base+count-1 of the roller's own base/count and finally moves the rolled file into pattern(base) (C07.R1-R3 re-evaluated). That the archives concatenate to the record stream for every history (file-system semantics, external rollers, background thread timing) is not decided."""
 LEVEL_NOTE = "Trusted: rustc MIR/callee resolution; parking_lot mutual exclusion; BufWriter flush/drop semantics; file-system rename semantics. Decides orderings and ownership on all paths, not on-disk contents."
 EXPLANATION = """Decided: R1 lock span, R2 per-branch orderings (exactly-once encode/flush/process), R3 roll() closes the writer and slot ownership, R4 policy order and gating, R5 reopen iff closed on the own path and never at offset 0 of kept content, R7 single buffered handle. Undecided: archive stream equality for all histories, user-defined policies/rollers, background rotation timing."""
-DECIDED = ["R1 lock span", "R2 branch orderings", "R3 roll closes writer / slot ownership", "R4 trigger->roll()->roller", "R5 reopen iff closed, appends unless truncating", "R7 single buffered handle", "R6 shift order/range/final step and move_file contract of the fixed-window roller", "R6e-R6i archive writes surface, a done roll took the file, fresh staging name, one background rotation at a time, directories made when needed (C07 re-evaluated)", "R8 append default from documents", "R9 builder setters / LogFile accessors are faithful"]
+DECIDED = ["R1 lock span", "R2 branch orderings", "R3 roll closes writer / slot ownership", "R4 trigger->roll()->roller", "R5 reopen iff closed, appends unless truncating", "R5b no reopen reachable from append can truncate (C08.E4 re-evaluated)", "R7 single buffered handle", "R6 shift order/range/final step and move_file contract of the fixed-window roller", "R6e-R6i archive writes surface, a done roll took the file, fresh staging name, one background rotation at a time, directories made when needed (C07 re-evaluated)", "R8 append default from documents", "R9 builder setters / LogFile accessors are faithful"]
 UNDECIDED = ["archives concatenate to the record stream for every history", "user-defined policies and rollers", "background rotation thread timing"]
 TRUSTED = ["rustc nightly MIR + Instance::try_resolve", "parking_lot::Mutex", "std BufWriter/File semantics", "file-system rename/remove semantics"]
 
